@@ -70,11 +70,13 @@ type finding struct {
 	Class     string `json:"class,omitempty"`      // regex on Result.Class (optional)
 	ReasonRe  string `json:"reason_re,omitempty"`  // regex on Result.Reason (optional)
 	WitnessRe string `json:"witness_re,omitempty"` // regex on the JSON of the witness (optional)
-	WhatFails string `json:"what_fails"`
-	Commit    string `json:"commit,omitempty"`
+	// WitnessAll: every regex must match the witness text (optional)
+	WitnessAll []string `json:"witness_all,omitempty"`
+	WhatFails  string   `json:"what_fails"`
+	Commit     string   `json:"commit,omitempty"`
 }
 
-var stop atomic.Bool
+var stop, timedOut atomic.Bool
 
 type caseOut struct {
 	idx int
@@ -184,23 +186,13 @@ func main() {
 			return true
 		}
 		if time.Now().After(deadline) {
-			stop.Store(true)
-			return true
-		}
-		mu.Lock()
-		n := 0
-		for _, c := range results {
-			if c.res.Verdict == "violated" {
-				n++
-			}
-		}
-		mu.Unlock()
-		if n >= 12 {
+			timedOut.Store(true)
 			stop.Store(true)
 			return true
 		}
 		return false
 	}
+	findingsEarly := loadFindings()
 	var crashes []string
 	var wg sync.WaitGroup
 	watchDone := make(chan struct{})
@@ -218,12 +210,15 @@ func main() {
 				for _, f := range files {
 					cs, _, _ := readOut(f)
 					for _, c := range cs {
-						if c.res.Verdict == "violated" {
+						if c.res.Verdict == "violated" && matchFinding(findingsEarly, *prop, c.res) == nil {
 							n++
 						}
 					}
 				}
-				if n >= 12 || time.Now().After(deadline) {
+				if time.Now().After(deadline) {
+					timedOut.Store(true)
+				}
+				if n >= 12 || timedOut.Load() {
 					stop.Store(true)
 					return
 				}
@@ -378,7 +373,7 @@ func main() {
 		code = 1
 	} else if harnessErr > 0 {
 		code = 2
-	} else if stoppedEarly {
+	} else if timedOut.Load() {
 		fmt.Println("HARNESS-ERROR: run exceeded its overall time limit before all cases were judged")
 		code = 2
 	} else if len(results) == 0 || dn < 2 {
@@ -685,6 +680,22 @@ func matchFinding(fs []finding, prop string, r result) *finding {
 		if f.WitnessRe != "" {
 			wb, _ := json.Marshal(r.Witness)
 			if ok, _ := regexp.Match(f.WitnessRe, wb); !ok {
+				continue
+			}
+		}
+		if len(f.WitnessAll) > 0 {
+			wt, isStr := r.Witness.(string)
+			if !isStr {
+				wb, _ := json.Marshal(r.Witness)
+				wt = string(wb)
+			}
+			all := true
+			for _, re := range f.WitnessAll {
+				if ok, _ := regexp.MatchString(re, wt); !ok {
+					all = false
+				}
+			}
+			if !all {
 				continue
 			}
 		}
